@@ -18,14 +18,23 @@ def uget(ctx, sig):
     return int(v) & ((1 << n) - 1) if n else 0
 
 
-def simulate(dut, ins, outs, stim, *, probe=None, frag=None):
+def simulate(dut, ins, outs, stim, *, probe=None, frag=None, reset_at=()):
     """Drive `ins` (list of signals) with each row of `stim`, read `outs` after combinational settle,
     then advance one clock.  Returns the list of output rows.  `probe(ctx, t)` may return extra
     observations appended to the row (used for memory contents).
-    The design is elaborated exactly once."""
+    The design is elaborated exactly once.
+    `reset_at`: cycle numbers in which the synchronous reset of the `sync` domain is asserted (through
+    amaranth's ResetInserter around the design): outputs of that cycle are still those of the old state, the
+    state after its clock edge is the reset state."""
     ins = [V(s) for s in ins]
     outs = [V(s) for s in outs]
-    if frag is None:
+    rst = None
+    if reset_at:
+        from amaranth.hdl import ResetInserter
+        rst = Signal(name="verif_rst")
+        dut = ResetInserter(rst)(dut)
+        reset_at = set(reset_at)
+    if frag is None or rst is not None:
         frag = Fragment.get(dut, None)
     sim = Simulator(frag)
     sim.add_clock(1e-6, if_exists=True)
@@ -37,6 +46,8 @@ def simulate(dut, ins, outs, stim, *, probe=None, frag=None):
             for s, v in zip(ins, row):
                 if len(s):
                     ctx.set(s, v & ((1 << len(s)) - 1))
+            if rst is not None:
+                ctx.set(rst, int(t in reset_at))
             o = [uget(ctx, s) for s in outs]
             if probe is not None:
                 o.append(probe(ctx, t))
